@@ -13,6 +13,8 @@
      error_not_late  with `check_complete`, an error at index i means that no sentence
                      starts with tokens 0..i (so a rejected input is not a sentence);
      sentence_result on a sentence `run` returns its tree or runs out of fuel, nothing else.
+     unambiguous     tables passing `check_complete` exist only for unambiguous grammars (so a
+                     conflict-free report validated by the checker cannot hide an ambiguity).
    run_sound + run_complete: accepted <-> derivable, and the tree is THE derivation given.
    The generator lr1.py is covered per instance: harness/props/c08.py applies the verified
    checkers to the tables and item sets lr1.py builds on every run.
@@ -66,3 +68,8 @@ Proof. exact Complete.sentence_result. Qed.
 Theorem check_complete_nonvacuous :
   exists G T I F t toks, check_complete G T I F = true /\ derives G (g_start G) t 0%nat toks /\ toks <> [].
 Proof. exact Examples.check_complete_nonvacuous. Qed.
+
+Theorem unambiguous : forall G T I F t1 t2 toks,
+  check_complete G T I F = true ->
+  derives G (g_start G) t1 0%nat toks -> derives G (g_start G) t2 0%nat toks -> t1 = t2.
+Proof. exact Complete.unambiguous. Qed.
